@@ -137,6 +137,9 @@ class Merger(object):
         """
         spike_clusters_l = _load_multiple_files('spike_clusters.npy', self.subdirs)
         spike_templates_l = _load_multiple_files('spike_templates.npy', self.subdirs)
+        n_templates_l = [
+            np.load(str(subdir / 'templates.npy'), mmap_mode='r').shape[0]
+            for subdir in self.subdirs]
         self.cluster_offsets = []
         self.template_offsets = []
         cluster_probes_l = []
@@ -145,7 +148,7 @@ class Merger(object):
         for i, (subdir, sc, st) in enumerate(
                 zip(self.subdirs, spike_clusters_l, spike_templates_l)):
             n_clu = int(np.max(sc)) + 1
-            n_tmp = int(np.max(st)) + 1
+            n_tmp = max(int(np.max(st)) + 1, n_templates_l[i])
             sc += coffset
             st += toffset
             self.cluster_offsets.append(coffset)
